@@ -156,7 +156,7 @@ func (in *Interp) pos(p token.Pos) string {
 	}
 	ps := in.prog.Fset.Position(p)
 	f := ps.Filename
-	f = strings.TrimPrefix(f, "/repo/")
+	f = strings.TrimPrefix(f, repoDir+"/")
 	return fmt.Sprintf("%s:%d", f, ps.Line)
 }
 
